@@ -239,6 +239,7 @@ func (ex *Exec) isObserverPkg(fn *types.Func) bool {
 
 func (ex *Exec) callFunc(p *Path, fn *types.Func, recv *Value, args []Value, call *ast.CallExpr) []Value {
 	if !ex.inContract() {
+		ex.decoderTarget, ex.decoderFn = ex.libraryDecoderTarget(p, fn, args), fn
 		ex.escapeArgs(p, recv, args)
 	}
 	pos := token.NoPos
@@ -417,6 +418,11 @@ func mapStr(xs []string, f func(string) string) []string {
 func (ex *Exec) havocCall(p *Path, fn *types.Func, mayWriteHeap bool) []Value {
 	sig := fn.Type().(*types.Signature)
 	ex.havocked[fn.FullName()] = true
+	if t := ex.decoderTarget; t != "" && ex.decoderFn == fn && mayWriteHeap && !ex.w.IsRepoFunc(fn) {
+		ex.decoderTarget = ""
+		ex.pointHavoc(p, t)
+		mayWriteHeap = false
+	}
 	if mayWriteHeap && !ex.isObserverPkg(fn) {
 		keep := ex.keepPrivate(p)
 		if !ex.havocCalleeWrites(p, fn) {
